@@ -400,11 +400,64 @@ func (a *adversary) leaderPropose(rt *rapid.T, e *stageEnv, r, b int64) string {
 		}
 	}
 	sort.Slice(claims, func(i, j int) bool { return claims[i].pr < claims[j].pr })
-	mode := rapid.IntRange(0, 6).Draw(rt, "lpMode")
+	mode := rapid.IntRange(0, 8).Draw(rt, "lpMode")
 	if e.jumpRound == r && rapid.IntRange(0, 4).Draw(rt, "lpFree") != 0 {
 		mode = 6
 	}
+	// honest PREPAREs observed for earlier rounds (any value)
+	var honestPrepared []rv
+	for _, k := range sortedKeys(p.prepares, func(x, y rv) bool { return x.r < y.r || (x.r == y.r && x.v < y.v) }) {
+		if k.r < r {
+			for _, m := range p.prepares[k] {
+				if a.s.Honest(m.Src) {
+					honestPrepared = append(honestPrepared, k)
+					break
+				}
+			}
+		}
+	}
 	switch {
+	case mode >= 7 && len(honestPrepared) > 0:
+		// forged prepared claim: the Byzantine members claim to have prepared another value v' in a round
+		// in which honest members prepared v, and "prove" it with their own PREPAREs for v' mixed with the
+		// replayed honest PREPAREs for v (own ones first, last, or interleaved).
+		k := honestPrepared[rapid.IntRange(0, len(honestPrepared)-1).Draw(rt, "mixedClaim")]
+		var cands []int64
+		for _, c := range append(append([]int64{}, a.vals...), 101+a.hon[0], 101+a.hon[len(a.hon)-1]) {
+			if c != k.v {
+				cands = append(cands, c)
+			}
+		}
+		forged := cands[rapid.IntRange(0, len(cands)-1).Draw(rt, "forgedValue")]
+		var just []*qbftsim.M
+		for _, m := range honestRC {
+			if m.PR <= k.r || rapid.IntRange(0, 3).Draw(rt, "keepHigherRC") == 0 {
+				just = append(just, m)
+			}
+		}
+		for _, x := range a.byz {
+			just = append(just, a.mk(cq.MsgRoundChange, x, r, 0, k.r, forged, nil, "nested"))
+		}
+		own := a.byzMsgs(cq.MsgPrepare, k.r, forged)
+		var replayed []*qbftsim.M
+		for _, m := range vals(p.prepares[k]) {
+			if a.s.Honest(m.Src) {
+				replayed = append(replayed, m)
+			}
+		}
+		switch rapid.IntRange(0, 2).Draw(rt, "mixOrder") {
+		case 0:
+			just = append(append(just, own...), replayed...)
+		case 1:
+			just = append(append(just, replayed...), own...)
+		default:
+			all := append(append([]*qbftsim.M{}, own...), replayed...)
+			for _, i := range rapid.Permutation(seqInts(len(all))).Draw(rt, "mixPerm") {
+				just = append(just, all[i])
+			}
+		}
+		a.s.Inject(a.mk(cq.MsgPrePrepare, b, r, forged, 0, 0, just, "ppForgedMixed"), a.hon)
+		return fmt.Sprintf("forged_claim_mixed_prepares(pr=%d,honest=%d,forged=%d)", k.r, k.v, forged)
 	case mode == 6 && len(nullJustification(a, honestRC, r)) >= a.s.Def.Quorum():
 		// equivocation towards members that are still in an earlier round (they jump on the justified
 		// PRE-PREPARE): they get both values, the others are partitioned between the two. The
